@@ -93,9 +93,17 @@ func loadIndex(repo string) (*xIndex, error) {
 			if perr != nil {
 				return perr
 			}
-			// honour build constraints we know of: skip files tagged for the harness only
-			for _, cg := range f.Comments {
-				if cg.Pos() < f.Package && strings.Contains(cg.Text(), "go:build verif") {
+			// honour the one build constraint the repository uses for verification hooks: files that
+			// start with `//go:build verif` are not part of the production binary
+			if raw, rerr := os.ReadFile(p); rerr == nil {
+				head := string(raw)
+				if len(head) > 400 {
+					head = head[:400]
+				}
+				if i := strings.Index(head, "\npackage "); i >= 0 {
+					head = head[:i]
+				}
+				if strings.Contains(head, "//go:build verif") {
 					return nil
 				}
 			}
